@@ -35,7 +35,8 @@ def plan(tier):
 def cases(tier, seed):
     n = 48 if tier == 'quick' else 640
     m = 32 if tier == 'quick' else 400
-    return [{'hist': i} for i in range(n)] + [{'conc': i} for i in range(m)]
+    grid = [{'grid': k} for k in store.KINDS]
+    return grid + [{'hist': i} for i in range(n)] + [{'conc': i} for i in range(m)]
 
 
 def setup(ctx):
@@ -189,9 +190,74 @@ def run_concurrent(ctx, case):
                     ctx.count('concurrent_requests_clean')
 
 
+def run_grid(ctx, case):
+    """Every attribute operation in every request form x every attribute the factory can build x one object of the
+    given kind (fresh per request, owned by the requester): well-formed requests, none may end in General Failure."""
+    rng = ctx.rng()
+    rig.install_clock(rig.VClock(step=1))
+    A_ = enums.AttributeType
+    kind = case['grid']
+    ident = ('alice', None)
+    with rig.scratch_dir() as d:
+        srv = rig.Server(d + '/db.sqlite')
+        try:
+            for name in G.SUPPORTED_FACTORY_ATTRS:
+                forms = []
+                for rep in range(2):
+                    v1, v2 = G.attr_value_for(rng, name), G.attr_value_for(rng, name)
+                    if v1 is None:
+                        continue
+                    for idx in (None, 0, 1):
+                        forms.append(('modify/1.x', (1, rng.choice((0, 2, 4))), lambda u, v1=v1, idx=idx: rig.op_modify_attribute_1x(u, rig.attr(name, v1, idx))))
+                        forms.append(('delete/1.x', (1, rng.choice((0, 2, 4))), lambda u, idx=idx: rig.op_delete_attribute_1x(u, name.value, idx)))
+                    forms.append(('set/2.0', (2, 0), lambda u, v1=v1: rig.op_set_attribute(u, name, v1)))
+                    for cur in (False, True):
+                        forms.append(('modify/2.0', (2, 0), lambda u, v1=v1, v2=v2, cur=cur: rig.op_modify_attribute_20(u, name, v1, v2, cur)))
+                        forms.append(('delete/2.0', (2, 0), lambda u, v2=v2, cur=cur: rig.op_delete_attribute_20(
+                            u, name, v2, has_current=cur, reference=not cur)))
+                for label, version, mk in forms:
+                    o = store.register(srv, kind, 'alice', rng, state=rng.choice(('pre', 'active')) if kind in ('sym', 'pub', 'priv', 'split') else 'pre',
+                                       names=['grid-%d' % rng.getrandbits(30)], groups=['gg'], asi=[('gns', 'gdt')])
+                    if o is None:
+                        ctx.count('grid_object_not_registered')
+                        continue
+                    try:
+                        data = rig.encode_request(rig.build_request(version, [mk(o.uid)]), version)
+                        rig.decode_request(data)
+                    except Exception:
+                        ctx.count('not_wellformed')
+                        continue
+                    ctx.count('requests_wellformed')
+                    ctx.count('attribute_grid_requests')
+                    ctx.cap.reset()
+                    res = srv.send_bytes(data, ident)
+                    ctx.ev()
+                    opname = label.split('/')[0] + '_attribute'
+                    if res.error is not None:
+                        key = '%s|%s|%s|%s' % (opname, 'response-unencodable' if res.error_stage == 'encode' else 'request-level',
+                                               type(res.error).__name__, logwatch.innermost_kmip_frame(res.error.__traceback__))
+                        ctx.violation(key, 'well-formed %s of %s on a %s object makes process_request raise %s (session answers '
+                                      'General Failure)' % (label, name.value, kind, type(res.error).__name__),
+                                      {'version': version, 'request': data.hex(), 'error': str(res.error)[:300]})
+                        continue
+                    rn = rig.reason_name(res.item()['status'], res.reason()) if res.item() else 'no-item'
+                    ctx.cell('grid', label, name.value, kind, rn)
+                    ctx.count('engine_error_records_checked')
+                    if res.reason() == rig.GENERAL_FAILURE:
+                        exc = ctx.cap.last_exc or ('unknown', '', 'unknown')
+                        ctx.violation('%s|%s|%s|%s' % (opname, exc[0], exc[2], logwatch.exception_digest(exc[0], exc[1])),
+                                      'well-formed %s of %s on a %s object answered GENERAL_FAILURE (%s: %s in %s)'
+                                      % (label, name.value, kind, exc[0], exc[1], exc[2]),
+                                      {'version': version, 'request': data.hex(), 'attribute': name.value, 'kind': kind})
+        finally:
+            srv.close()
+
+
 def run_case(ctx, case):
     if 'conc' in case:
         return run_concurrent(ctx, case)
+    if 'grid' in case:
+        return run_grid(ctx, case)
     rng = ctx.rng()
     rig.install_clock(rig.VClock(step=1))
     with rig.scratch_dir() as d:
@@ -201,6 +267,8 @@ def run_case(ctx, case):
             k_ = store.register(srv, 'sym', 'alice', rng, state='active', names=['c13-active'])
             if k_ is not None:
                 objs.append(k_)
+            derive_base = store.register(srv, 'sym', 'alice', rng, masks=[enums.CryptographicUsageMask.DERIVE_KEY],
+                                         state='pre', names=['c13-derive-base'])
             focus = list(objs)
             steps = 260
             for step in range(steps):
@@ -218,12 +286,18 @@ def run_case(ctx, case):
                     # a batch: a first item that may set the ID placeholder (a creating operation, or a Locate that
                     # matches one object) followed by identifier-less items
                     named = [x for x in objs if getattr(x, 'names', None)]
-                    first = rng.choice(('locate1', 'locate1', 'create', 'register', 'locate_all'))
+                    first = rng.choice(('locate1', 'locate1', 'create', 'register', 'locate_all', 'derive', 'derive', 'create_key_pair'))
                     if first == 'locate1' and named:
                         o1 = rng.choice(named)
                         batch = [rig.op_locate([rig.attr(enums.AttributeType.NAME, rig.name_value(o1.names[0]))])]
                     elif first == 'create':
                         batch = [rig.op_create(names=['c13-b%d' % step])]
+                    elif first == 'derive' and derive_base is not None:
+                        ident = ('alice', None)
+                        batch = [rig.op_derive_key([derive_base.uid], attributes_list=rig.sym_attrs(
+                            enums.CryptographicAlgorithm.AES, 128, rig.ALL_MASKS, names=['c13-d%d' % step]))]
+                    elif first == 'create_key_pair':
+                        batch = [rig.op_create_key_pair()]
                     elif first == 'register':
                         batch = [rig.op_register('secret', rig.secret_data(b'c13'), rig.common_attrs(names=['c13-r%d' % step]))]
                     else:
